@@ -176,7 +176,7 @@ func (c *FnCtx) instr(ins ssa.Instruction) {
 		ln, cp := c.v(x.Len), c.v(x.Cap)
 		o := c.safetyOb("makeslice", x.Pos(), "make", "make")
 		c.assert(o, and(app("<=", "0", ln), app("<=", ln, cp)))
-		c.allocBound(x.Pos(), cp, x.Type().Underlying().(*types.Slice).Elem())
+		c.allocBound(x, cp)
 		ref := c.allocRef()
 		el := x.Type().Underlying().(*types.Slice).Elem()
 		comp := c.elemComp(el)
@@ -245,9 +245,12 @@ func (c *FnCtx) instr(ins ssa.Instruction) {
 	}
 }
 
-func (c *FnCtx) allocBound(pos token.Pos, size Term, el types.Type) {
-	// hook for the C12 allocation-bound obligations (see taint.go)
-	c.allocBoundCheck(pos, size)
+func (c *FnCtx) allocBound(x *ssa.MakeSlice, size Term) {
+	// C12: an allocation sized by a number that comes from the peer must be bounded
+	if c.peerTainted(x.Cap, 0, map[ssa.Value]bool{}) || c.peerTainted(x.Len, 0, map[ssa.Value]bool{}) {
+		o := c.safetyOb("allocbound", x.Pos(), "make", "make")
+		c.assert(o, app("<=", size, allocLimit))
+	}
 }
 
 // ---------- slices / strings
